@@ -12,7 +12,7 @@ CONSTANTS Ns, MaxS, MaxSel, VMax, Classes
 S == 1..MaxS
 Base(op, n, rs, as, bs) ==
   [op |-> op, n |-> n, rs |-> rs, as |-> as, bs |-> bs, step |-> 1, off |-> 0, scale |-> 0,
-   rows |-> 1, cin |-> 1, cout |-> 1, ms |-> 1, maskt |-> 0, same |-> 0, vmax |-> VMax, vclass |-> 0]
+   rows |-> 1, cin |-> 1, cout |-> 1, ms |-> 1, maskt |-> 0, same |-> 0, vmax |-> VMax, vclass |-> 0, pa |-> as, pb |-> bs]
 
 Transforms ==
   { [Base(op, n, rs, as, 1) EXCEPT !.step = st, !.off = of] :
@@ -39,10 +39,18 @@ Cnv ==
       n \in Ns, rs \in 1..(2 * MaxS), as \in S, of \in 0..(2 * MaxS), mt \in {0, 2} }
   \cup { [Base("cnv_pairwise_apply_dft", n, rs, as, bs) EXCEPT !.off = of, !.same = sm] :
       n \in Ns, rs \in 1..(2 * MaxS), as \in S, bs \in S, of \in 0..(2 * MaxS), sm \in {0, 1} }
+\* prepared operands with fewer / more limbs than their source (truncation, zero extension)
+CnvPrep ==
+  { [Base(op, n, rs, as, bs) EXCEPT !.off = of, !.pa = pa, !.pb = pb] :
+      op \in {"cnv_apply_dft", "cnv_pairwise_apply_dft"}, n \in Ns, rs \in {2, 2 * MaxS}, as \in S, bs \in S, of \in {0, 1},
+      pa \in 1..(MaxS + 1), pb \in 1..(MaxS + 1) }
+  \cup { [Base("cnv_apply_dft_self", n, rs, as, as) EXCEPT !.off = of, !.pa = pa, !.pb = pa] :
+      n \in Ns, rs \in {2, 2 * MaxS}, as \in S, of \in {0, 1}, pa \in 1..(MaxS + 1) }
+CnvPrep1 == { d \in CnvPrep : d.pa # d.as \/ d.pb # d.bs }
 \* the constant form has no mask and keeps the offset inside a + b
 Cnv1 == { d \in Cnv : (d.op = "cnv_by_const_apply" => d.maskt = 0) /\ d.off <= d.as + d.bs /\ d.rs <= d.as + d.bs + 1 }
 
-Descs == Transforms \cup Linear \cup Svp \cup Vmp \cup Cnv1
+Descs == Transforms \cup Linear \cup Svp \cup Vmp \cup Cnv1 \cup CnvPrep1
 
 ASSUME ndJsonSerialize(IOEnv.OUT, SetToSeq(Descs))
 ASSUME PrintT(<<"GENERATED", Cardinality(Descs)>>)
